@@ -346,6 +346,7 @@ func init() {
 		}
 		return ""
 	}
+	in["runtime.Caller"] = func(fr *frame, a []value) value { return tuple{uintptr(0), "unknown.go", 0, true} }
 	in["runtime/debug.Stack"] = func(fr *frame, a []value) value { return []value{} }
 	in["internal/abi.NoEscape"] = func(fr *frame, a []value) value { return a[0] }
 	// byte searches over possibly symbolic strings: every byte comparison that involves a
